@@ -168,6 +168,18 @@ func runPlanCase(c planCase, o planCheckOpts) *Violation {
 				return v
 			}
 		}
+		if o.thes {
+			// the lookup surface (exclusions, unknown terms, recycled lists and iterators) on the
+			// merged segment; terms without a surviving pair must stay gone whatever was looked up before
+			var ex spec.DropSpec
+			for d := uint64(0); d < want.Count; d += 2 {
+				ex.Docs = append(ex.Docs, uint32(d))
+			}
+			if v := checkThesauri(prop, node.Seg, want, []spec.DropSpec{ex}, true, tag+": "); v != nil {
+				v.Signature = "merge/" + v.Signature
+				return v
+			}
+		}
 		if o.index {
 			// terms whose every document was deleted must be gone
 			if v := checkAbsent(prop, node.Seg, want); v != nil {
